@@ -1,4 +1,425 @@
 #!/usr/bin/env python3
-# translate.py — regenerates coq/gen/*.v (tables) from the current /repo sources. Filled in per property.
-import sys
-sys.exit(0)
+# translate.py — regenerates coq/gen/*.v (tables only) from the CURRENT /repo sources.
+#   AbiTables.v  (C15): UpdateStatus variants, SHOREBIRD_* constants, exported prototypes, repr(C)
+#                structs — as read from the Rust sources, the generated C header and the Dart bindings
+#   PanicSites.v (C13): every explicit panic site / unsafe block in non-test library code
+#   Consts.v     (C20/C17): default channel, URL suffixes, event type strings, request field names
+# Deliberately dumb (regular expressions over a fixed code shape): when a shape is not recognised the
+# translator FAILS (exit 1) rather than guess.
+import os, re, sys
+
+REPO = '/repo'
+ROOT = os.path.dirname(os.path.dirname(os.path.abspath(__file__)))
+GEN = os.path.join(ROOT, 'coq', 'gen')
+
+
+class Bad(Exception):
+    pass
+
+
+def strip_tests(src):
+    """drop every item that follows a #[cfg(test)] attribute (modules, impl blocks, fns, uses, consts)"""
+    out = ''
+    pos = 0
+    while True:
+        m = re.search(r'#\[cfg\(test\)\]', src[pos:])
+        if not m:
+            out += src[pos:]
+            break
+        out += src[pos:pos + m.start()]
+        k = pos + m.end()
+        # skip further attributes / doc comments
+        while True:
+            mm = re.match(r'\s*(#\[[^\]]*\]|///[^\n]*|//[^\n]*)', src[k:])
+            if not mm:
+                break
+            k += mm.end()
+        semi = src.find(';', k)
+        brace = src.find('{', k)
+        if brace != -1 and (semi == -1 or brace < semi):
+            depth = 0
+            e = brace
+            while e < len(src):
+                if src[e] == '{':
+                    depth += 1
+                elif src[e] == '}':
+                    depth -= 1
+                    if depth == 0:
+                        break
+                e += 1
+            pos = e + 1
+        else:
+            pos = (semi + 1) if semi != -1 else len(src)
+    return out
+
+
+def strip_comments(src):
+    src = re.sub(r'/\*.*?\*/', '', src, flags=re.S)
+    return re.sub(r'//[^\n]*', '', src)
+
+
+# ---------------------------------------------------------------- C type algebra (printing)
+def ty(kind, *a):
+    return (kind,) + a
+
+
+def coq_ty(t):
+    k = t[0]
+    if k == 'ptr':
+        return '(TPtr %s)' % coq_ty(t[1])
+    if k == 'struct':
+        return '(TStruct "%s")' % t[1]
+    if k == 'fn':
+        return '(TFn [%s] %s)' % ('; '.join(coq_ty(x) for x in t[1]), coq_ty(t[2]))
+    return {'void': 'TVoid', 'bool': 'TBool', 'i32': 'TI32', 'i64': 'TI64', 'u8': 'TU8', 'int': 'TInt',
+            'usize': 'TUSize', 'char': 'TChar'}[k]
+
+
+# ---------------------------------------------------------------- Rust side
+def rust_type(s):
+    s = s.strip()
+    m = re.match(r'\*(const|mut)\s+(.*)$', s)
+    if m:
+        return ty('ptr', rust_type(m.group(2)))
+    m = re.match(r'extern "C" fn\((.*)\)(?:\s*->\s*(.*))?$', s, flags=re.S)
+    if m:
+        args = [rust_type(a.split(':', 1)[1] if ':' in a else a) for a in split_args(m.group(1))]
+        return ty('fn', args, rust_type(m.group(2)) if m.group(2) else ty('void'))
+    base = {'bool': 'bool', 'usize': 'usize', 'i32': 'i32', 'i64': 'i64', 'u8': 'u8',
+            'libc::c_char': 'char', 'c_char': 'char', 'libc::c_int': 'int', 'libc::c_void': 'void', '()': 'void'}
+    if s in base:
+        return ty(base[s])
+    if re.match(r'^[A-Z]\w+$', s):
+        return ty('struct', s)
+    raise Bad('unrecognised Rust type: %r' % s)
+
+
+def split_args(s):
+    s = s.replace('->', '\x01')
+    return [a.replace('\x01', '->') for a in split_args0(s)]
+
+
+def split_args0(s):
+    out, depth, cur = [], 0, ''
+    for ch in s:
+        if ch in '(<':
+            depth += 1
+        if ch in ')>':
+            depth -= 1
+        if ch == ',' and depth == 0:
+            out.append(cur)
+            cur = ''
+        else:
+            cur += ch
+    if cur.strip():
+        out.append(cur)
+    return [a.strip() for a in out if a.strip()]
+
+
+def rust_side():
+    src = strip_comments(strip_tests(open(os.path.join(REPO, 'library/src/c_api/mod.rs')).read()))
+    fns = {}
+    for m in re.finditer(r'#\[no_mangle\]\s*pub (?:unsafe )?extern "C" fn (\w+)\s*\((.*?)\)\s*(?:->\s*([^{]+?))?\s*\{', src, flags=re.S):
+        name, args, ret = m.group(1), m.group(2), m.group(3)
+        a = [rust_type(x.split(':', 1)[1]) for x in split_args(args)]
+        fns[name] = (a, rust_type(ret) if ret else ty('void'))
+    if len(fns) < 10:
+        raise Bad('only %d exported functions recognised in c_api/mod.rs' % len(fns))
+    n_nomangle = len(re.findall(r'#\[no_mangle\]', src))
+    if n_nomangle != len(fns):
+        raise Bad('%d #[no_mangle] items but %d prototypes recognised' % (n_nomangle, len(fns)))
+    structs = {}
+    for m in re.finditer(r'#\[repr\(C\)\]\s*pub struct (\w+)\s*\{(.*?)\n\}', src, flags=re.S):
+        fields = []
+        for f in split_args(m.group(2)):
+            fm = re.match(r'pub (\w+)\s*:\s*(.*)$', f, flags=re.S)
+            if not fm:
+                raise Bad('unrecognised field in struct %s: %r' % (m.group(1), f))
+            fields.append((fm.group(1), rust_type(fm.group(2))))
+        structs[m.group(1)] = fields
+    if len(re.findall(r'#\[repr\(C\)\]', src)) != len(structs):
+        raise Bad('repr(C) items not all recognised')
+    consts = {}
+    for m in re.finditer(r'pub const (SHOREBIRD_\w+)\s*:\s*i32\s*=\s*(-?\d+)\s*;', src):
+        consts[m.group(1)] = int(m.group(2))
+    usrc = strip_comments(strip_tests(open(os.path.join(REPO, 'library/src/updater.rs')).read()))
+    m = re.search(r'pub enum UpdateStatus\s*\{(.*?)\}', usrc, flags=re.S)
+    if not m:
+        raise Bad('enum UpdateStatus not found')
+    variants = []
+    disc = 0
+    for v in split_args(m.group(1)):
+        vm = re.match(r'(\w+)(?:\s*=\s*(-?\d+))?$', v)
+        if not vm:
+            raise Bad('unrecognised UpdateStatus variant %r' % v)
+        if vm.group(2) is not None:
+            disc = int(vm.group(2))
+        variants.append((vm.group(1), disc))
+        disc += 1
+    # how to_update_result turns a status into the C status field
+    cm = re.search(r'fn to_update_result.*?\n\}', src, flags=re.S)
+    if not cm or 'status: status as i32' not in cm.group(0) or 'status: SHOREBIRD_UPDATE_ERROR' not in cm.group(0):
+        raise Bad('to_update_result no longer has the recognised shape (status as i32 / SHOREBIRD_UPDATE_ERROR)')
+    return fns, structs, consts, variants
+
+
+# ---------------------------------------------------------------- C header
+def c_type(s):
+    s = s.strip()
+    s = re.sub(r'\bstruct\s+', '', s)
+    m = re.match(r'^(.*)\(\*\s*\w*\)\((.*)\)$', s, flags=re.S)       # function pointer: ret (*name)(args)
+    if m:
+        args = [] if m.group(2).strip() == 'void' else [c_type(strip_name(a)) for a in split_args(m.group(2))]
+        return ty('ptr_fn', args, c_type(m.group(1)))
+    if s.endswith('*') or s.endswith('*const'):
+        inner = re.sub(r'\*\s*(const)?$', '', s).strip()
+        return ty('ptr', c_type(inner))
+    s = re.sub(r'\bconst\b', '', s).strip()
+    base = {'bool': 'bool', 'uintptr_t': 'usize', 'int32_t': 'i32', 'int64_t': 'i64', 'uint8_t': 'u8', 'char': 'char',
+            'int': 'int', 'void': 'void'}
+    if s in base:
+        return ty(base[s])
+    if re.match(r'^[A-Z]\w+$', s):
+        return ty('struct', s)
+    raise Bad('unrecognised C type: %r' % s)
+
+
+def strip_name(decl):
+    """`const char *c_yaml` -> `const char *`"""
+    decl = decl.strip()
+    if '(*' in decl:
+        return decl
+    m = re.match(r'^(.*?)(\w+)$', decl, flags=re.S)
+    if not m or not m.group(1).strip():
+        return decl
+    return m.group(1).strip()
+
+
+def norm_fnptr(t):
+    if t[0] == 'ptr_fn':
+        return ty('fn', [norm_fnptr(a) for a in t[1]], norm_fnptr(t[2]))
+    if t[0] == 'ptr':
+        return ty('ptr', norm_fnptr(t[1]))
+    return t
+
+
+def header_side():
+    src = strip_comments(open(os.path.join(REPO, 'library/include/updater.h')).read())
+    defines = {m.group(1): int(m.group(2)) for m in re.finditer(r'#define (SHOREBIRD_(?!EXPORT)\w+)\s+(-?\d+)', src)}
+    structs = {}
+    for m in re.finditer(r'typedef struct (\w+)\s*\{(.*?)\}\s*\w+;', src, flags=re.S):
+        fields = []
+        for f in [x.strip() for x in m.group(2).split(';') if x.strip()]:
+            fm = re.match(r'^(.*)\(\*(\w+)\)\((.*)\)$', f, flags=re.S)
+            if fm:
+                fields.append((fm.group(2), norm_fnptr(c_type(f))))
+                continue
+            fm = re.match(r'^(.*?)(\w+)$', f, flags=re.S)
+            fields.append((fm.group(2), c_type(fm.group(1))))
+        structs[m.group(1)] = fields
+    fns = {}
+    protos = src[src.index('extern "C" {'):]
+    for m in re.finditer(r'SHOREBIRD_EXPORT\s+(.*?)\b(shorebird_\w+)\s*\((.*?)\)\s*;', protos, flags=re.S):
+        ret, name, args = m.group(1), m.group(2), m.group(3)
+        a = [] if args.strip() == 'void' else [c_type(strip_name(x)) for x in split_args(args)]
+        fns[name] = (a, c_type(ret))
+    if len(fns) < 10:
+        raise Bad('only %d prototypes recognised in updater.h' % len(fns))
+    return fns, structs, defines
+
+
+# ---------------------------------------------------------------- Dart bindings
+def dart_type(s):
+    s = s.strip()
+    m = re.match(r'^ffi\.Pointer<(.*)>$', s, flags=re.S)
+    if m:
+        inner = m.group(1).strip()
+        fm = re.match(r'^ffi\s*\.\s*NativeFunction<(.*)>$', inner, flags=re.S)
+        if fm:
+            return dart_fn(fm.group(1))
+        return ty('ptr', dart_type(inner))
+    base = {'ffi.Bool': 'bool', 'ffi.UintPtr': 'usize', 'ffi.Int32': 'i32', 'ffi.Int64': 'i64', 'ffi.Uint8': 'u8',
+            'ffi.Char': 'char', 'ffi.Int': 'int', 'ffi.Void': 'void'}
+    if s in base:
+        return ty(base[s])
+    if re.match(r'^[A-Z]\w+$', s):
+        return ty('struct', s)
+    raise Bad('unrecognised Dart type: %r' % s)
+
+
+def dart_fn(s):
+    m = re.match(r'^(.*?)\s+Function\((.*)\)$', s.strip(), flags=re.S)
+    if not m:
+        raise Bad('unrecognised Dart function type: %r' % s)
+    args = []
+    for a in split_args(m.group(2)):
+        am = re.match(r'^(.*?)(?:\s+\w+)?$', a.strip(), flags=re.S)
+        t = a.strip()
+        # optional parameter name after the type
+        parts = t.rsplit(' ', 1)
+        if len(parts) == 2 and re.match(r'^\w+$', parts[1]) and not parts[1].startswith('ffi') and ('<' not in parts[1]):
+            t = parts[0]
+        args.append(dart_type(t))
+    return ty('fn', args, dart_type(m.group(1)))
+
+
+def dart_side():
+    src = open(os.path.join(REPO, 'shorebird_code_push/lib/src/generated/updater_bindings.g.dart')).read()
+    src = re.sub(r'///[^\n]*', '', src)
+    fns = {}
+    for m in re.finditer(r"'(shorebird_\w+)'\)", src):
+        st = src.rfind('_lookup<', 0, m.start())
+        seg = src[st:m.start()]
+        sm = re.match(r"_lookup<\s*ffi\.NativeFunction<(.*)>>\(\s*$", seg, flags=re.S)
+        if not sm:
+            raise Bad('unrecognised Dart lookup for %s' % m.group(1))
+        f = dart_fn(sm.group(1))
+        fns[m.group(1)] = (f[1], f[2])
+    if len(fns) < 8:
+        raise Bad('only %d shorebird_* lookups recognised in the Dart bindings' % len(fns))
+    structs = {}
+    for name in ('AppParameters', 'FileCallbacks', 'UpdateResult'):
+        m = re.search(r'final class %s extends ffi\.Struct \{(.*?)\n\}' % name, src, flags=re.S)
+        if not m:
+            raise Bad('Dart struct %s not found' % name)
+        fields = []
+        for f in [x.strip() for x in m.group(1).split(';') if x.strip()]:
+            fm = re.match(r'^(?:@(ffi\.\w+)\(\)\s*)?external\s+(.*?)\s+(\w+)$', f, flags=re.S)
+            if not fm:
+                raise Bad('unrecognised Dart field in %s: %r' % (name, f))
+            t = dart_type(fm.group(1)) if fm.group(1) else dart_type(fm.group(2))
+            fields.append((fm.group(3), t))
+        structs[name] = fields
+    consts = {m.group(1): int(m.group(2)) for m in re.finditer(r'const int (SHOREBIRD_\w+)\s*=\s*(-?\d+)\s*;', src)}
+    io = open(os.path.join(REPO, 'shorebird_code_push/lib/src/shorebird_updater_io.dart')).read()
+    m = re.search(r'UpdateFailureReason toFailureReason\(\) \{(.*?)\n  \}', io, flags=re.S)
+    if not m:
+        raise Bad('toFailureReason not found')
+    cases = re.findall(r'case (SHOREBIRD_\w+):\s*return UpdateFailureReason\.(\w+);', m.group(1))
+    return fns, structs, consts, cases
+
+
+def erase(t):
+    return t
+
+
+def emit_abi():
+    rf, rs, rc, rv = rust_side()
+    hf, hs, hd = header_side()
+    df, ds, dc, dcases = dart_side()
+    out = ['(* GENERATED by tools/translate.py from /repo — do not edit. *)',
+           'From Coq Require Import List ZArith String.', 'From UV Require Import Abi.', 'Import ListNotations.',
+           'Open Scope string_scope.', '']
+
+    def fn_table(name, fns):
+        rows = ['  ("%s", [%s], %s)' % (n, '; '.join(coq_ty(a) for a in fns[n][0]), coq_ty(fns[n][1])) for n in sorted(fns)]
+        out.append('Definition %s : list (string * list cty * cty) :=\n  [\n%s\n  ].\n' % (name, ';\n'.join(rows)))
+
+    def struct_table(name, st):
+        rows = ['  ("%s", [%s])' % (n, '; '.join('("%s", %s)' % (f, coq_ty(t)) for f, t in st[n])) for n in sorted(st)]
+        out.append('Definition %s : list (string * list (string * cty)) :=\n  [\n%s\n  ].\n' % (name, ';\n'.join(rows)))
+
+    def const_table(name, cs):
+        rows = ['("%s", (%d)%%Z)' % (k, cs[k]) for k in sorted(cs)]
+        out.append('Definition %s : list (string * Z) := [%s].\n' % (name, '; '.join(rows)))
+    fn_table('rust_fns', rf)
+    fn_table('header_fns', hf)
+    fn_table('dart_fns', df)
+    struct_table('rust_structs', rs)
+    struct_table('header_structs', hs)
+    struct_table('dart_structs', ds)
+    const_table('rust_consts', rc)
+    const_table('header_defines', hd)
+    const_table('dart_consts', dc)
+    out.append('Definition rust_status_variants : list (string * Z) := [%s].\n' % '; '.join('("%s", (%d)%%Z)' % v for v in rv))
+    out.append('Definition dart_failure_cases : list (string * string) := [%s].\n' % '; '.join('("%s", "%s")' % c for c in dcases))
+    return '\n'.join(out)
+
+
+# ---------------------------------------------------------------- panic sites
+PANIC_PAT = re.compile(r'\.unwrap\(\)|\.expect\(|panic!\(|unreachable!\(|unimplemented!\(|todo!\(|assert!\(|assert_eq!\(|assert_ne!\(|\bunsafe\b|thread::spawn\(|(?<![#!\w])\w+\[[^\]\n]+\](?!\s*=\s*\{)|\.offset\(')
+
+
+def emit_panics():
+    sites = []
+    base = os.path.join(REPO, 'library/src')
+    files = []
+    for dp, _, fs in os.walk(base):
+        for f in fs:
+            if f.endswith('.rs') and f not in ('android.rs', 'test_utils.rs', 'verif.rs'):
+                files.append(os.path.join(dp, f))
+    for path in sorted(files):
+        src = strip_tests(open(path).read())
+        fn = '?'
+        for ln, line in enumerate(src.splitlines(), 1):
+            code = re.sub(r'//.*', '', line)
+            m = re.search(r'\bfn (\w+)', code)
+            if m:
+                fn = m.group(1)
+            for pm in PANIC_PAT.finditer(code):
+                kind = pm.group(0).strip('.(!')
+                if '[' in kind:
+                    if kind.startswith(('vec', 'cfg', 'derive', 'allow', 'serde')) or re.match(r'^[A-Z]', kind):
+                        continue
+                    kind = 'index'
+                sites.append((os.path.relpath(path, base), fn, kind))
+    rows = ['  ("%s", "%s", "%s")' % s for s in sites]
+    return ('(* GENERATED by tools/translate.py from /repo — do not edit. *)\n'
+            'From Coq Require Import List String.\nImport ListNotations.\nOpen Scope string_scope.\n\n'
+            '(* (file, enclosing fn, kind) of every explicit panic site / unsafe block in non-test library code *)\n'
+            'Definition panic_sites : list (string * string * string) :=\n  [\n%s\n  ].\n' % ';\n'.join(rows))
+
+
+# ---------------------------------------------------------------- constants
+def emit_consts():
+    cfg = open(os.path.join(REPO, 'library/src/config.rs')).read()
+    m = re.search(r'const DEFAULT_CHANNEL: &str = "([^"]*)";', cfg)
+    if not m:
+        raise Bad('DEFAULT_CHANNEL not found')
+    chan = m.group(1)
+    net = strip_tests(open(os.path.join(REPO, 'library/src/network.rs')).read())
+    cm = re.search(r'fn patches_check_url.*?format!\("\{base_url\}([^"]*)"\)', net, flags=re.S)
+    em = re.search(r'fn patches_events_url.*?format!\("\{base_url\}([^"]*)"\)', net, flags=re.S)
+    if not cm or not em:
+        raise Bad('URL builders not recognised')
+    ev = open(os.path.join(REPO, 'library/src/events.rs')).read()
+    names = re.findall(r'EventType::(\w+) => "([^"]+)"', ev)
+    names = sorted(set(names))
+    rm = re.search(r'pub struct PatchCheckRequest \{(.*?)\n\}', strip_comments(net), flags=re.S)
+    fields = re.findall(r'pub (\w+): String', rm.group(1)) if rm else []
+    if not fields:
+        raise Bad('PatchCheckRequest fields not recognised')
+    newm = re.search(r'impl PatchCheckRequest \{.*?PatchCheckRequest \{(.*?)\}\s*\}\s*\}', net, flags=re.S)
+    assigns = re.findall(r'(\w+): ([^,\n]+),', newm.group(1)) if newm else []
+    return ('(* GENERATED by tools/translate.py from /repo — do not edit. *)\n'
+            'From Coq Require Import List String.\nImport ListNotations.\nOpen Scope string_scope.\n\n'
+            'Definition gen_default_channel : string := "%s".\n'
+            'Definition gen_check_url_suffix : string := "%s".\n'
+            'Definition gen_events_url_suffix : string := "%s".\n'
+            'Definition gen_event_type_names : list (string * string) := [%s].\n'
+            'Definition gen_request_fields : list string := [%s].\n'
+            'Definition gen_request_sources : list (string * string) := [%s].\n'
+            % (chan, cm.group(1), em.group(1), '; '.join('("%s", "%s")' % n for n in names),
+               '; '.join('"%s"' % f for f in fields), '; '.join('("%s", "%s")' % (a, b.strip().replace('"', "'")) for a, b in assigns)))
+
+
+def write_if_changed(path, text):
+    old = open(path).read() if os.path.exists(path) else None
+    if old != text:
+        open(path, 'w').write(text)
+
+
+def main():
+    os.makedirs(GEN, exist_ok=True)
+    try:
+        write_if_changed(os.path.join(GEN, 'AbiTables.v'), emit_abi())
+        write_if_changed(os.path.join(GEN, 'PanicSites.v'), emit_panics())
+        write_if_changed(os.path.join(GEN, 'Consts.v'), emit_consts())
+    except Bad as e:
+        print('translate.py: source shape not recognised: %s' % e)
+        sys.exit(1)
+    print('translate.py: ok')
+
+
+if __name__ == '__main__':
+    main()
